@@ -49,6 +49,7 @@ package corazawaf
 //@   ensures fresh(payload(result0, "*bodyBufferReader")) && payload(result0, "*bodyBufferReader").br == br && payload(result0, "*bodyBufferReader").pos == 0
 //@   ensures len(br.readers) == len(old(br.readers)) + 1 && br.readers[len(br.readers) - 1] == payload(result0, "*bodyBufferReader")
 //@   ensures forall j int :: 0 <= j && j < len(old(br.readers)) ==> br.readers[j] == old(br.readers[j])
+//@   ensures sameOrFreshArray: base(br.readers) == old(base(br.readers)) || fresh(br.readers)
 
 //@ func (*BodyBuffer).Reset props C05,C20,C10
 //@   requires br.buffer != nil
@@ -105,7 +106,11 @@ package corazawaf
 //@   modifies nothing
 //@   ensures result == tx.debugLogger
 
-//@ func (*RuleGroup).Eval props C02,C08,C17,C12,C04
+//@ func (*RuleGroup).Eval props C02,C08,C17,C12,C04,C06
+// C06: running a phase writes nothing that transactions share -- no field of a rule, the rule group or the WAF, no
+// field of any operator, action or transformation object, and no package-level variable
+//@   excludes Rule, RuleGroup, WAF, globals
+//@   excludes pkg:github.com/corazawaf/coraza/v3/internal/operators, pkg:github.com/corazawaf/coraza/v3/internal/actions
 //@   requires tx != nil
 //@   modifies inferred, tx.evalCount
 //@   ensures def_counts: tx.evalCount == put(old(tx.evalCount), phase, get(old(tx.evalCount), phase) + 1)
@@ -138,7 +143,8 @@ package corazawaf
 //@     invariant !has(tx.ruleRemoveByID, r.ID_)
 //@     invariant forall j int :: 0 <= j && j <= rangeindex ==> !(r.ID_ >= tx.ruleRemoveByIDRanges[j][0] && r.ID_ <= tx.ruleRemoveByIDRanges[j][1])
 
-//@ func (*Transaction).ProcessRequestHeaders props C02
+//@ func (*Transaction).ProcessRequestHeaders props C02,C06
+//@   excludes Rule, RuleGroup, WAF, globals
 //@   requires tx.WAF != nil && PhaseInv(tx)
 //@   modifies inferred, tx.evalCount
 //@   ensures PhaseInv(tx)
@@ -150,7 +156,8 @@ package corazawaf
 //@   modifies nothing
 //@   ensures result == (tx.detectionOnlyInterruption != nil)
 
-//@ func (*Transaction).ProcessRequestBody props C02
+//@ func (*Transaction).ProcessRequestBody props C02,C06
+//@   excludes Rule, RuleGroup, WAF, globals
 //@   requires tx.WAF != nil && PhaseInv(tx)
 //@   modifies inferred, tx.evalCount
 //@   ensures PhaseInv(tx)
@@ -159,7 +166,8 @@ package corazawaf
 //@   ensures final: old(tx.interruption) != nil ==> tx.evalCount == old(tx.evalCount) && (old(tx.RuleEngine) != types.RuleEngineOff ==> result0 == old(tx.interruption))
 //@   ensures only2: forall p int :: p != 2 ==> get(tx.evalCount, p) == get(old(tx.evalCount), p)
 
-//@ func (*Transaction).ProcessResponseHeaders props C02
+//@ func (*Transaction).ProcessResponseHeaders props C02,C06
+//@   excludes Rule, RuleGroup, WAF, globals
 //@   requires tx.WAF != nil && PhaseInv(tx)
 //@   modifies inferred, tx.evalCount
 //@   ensures PhaseInv(tx)
@@ -168,7 +176,8 @@ package corazawaf
 //@   ensures final: old(tx.interruption) != nil ==> tx.evalCount == old(tx.evalCount) && (old(tx.RuleEngine) != types.RuleEngineOff ==> result == old(tx.interruption))
 //@   ensures only3: forall p int :: p != 3 ==> get(tx.evalCount, p) == get(old(tx.evalCount), p)
 
-//@ func (*Transaction).ProcessResponseBody props C02
+//@ func (*Transaction).ProcessResponseBody props C02,C06
+//@   excludes Rule, RuleGroup, WAF, globals
 //@   requires tx.WAF != nil && PhaseInv(tx)
 //@   modifies inferred, tx.evalCount
 //@   ensures PhaseInv(tx)
@@ -179,7 +188,8 @@ package corazawaf
 
 // Audit decision table (C19): Off -> no record, On -> exactly one, RelevantOnly with a status pattern -> one iff the
 // status (real interruption's, else the would-be one's, else the response status) matches.
-//@ func (*Transaction).ProcessLogging props C02,C19
+//@ func (*Transaction).ProcessLogging props C02,C19,C06
+//@   excludes Rule, RuleGroup, WAF, globals
 //@   requires tx.WAF != nil && PhaseInv(tx)
 //@   modifies inferred, tx.evalCount, auditWrites
 //@   ensures PhaseInv(tx)
@@ -189,6 +199,16 @@ package corazawaf
 //@   ensures auditOff: tx.AuditEngine == types.AuditEngineOff ==> auditWrites == old(auditWrites)
 //@   ensures auditOn: tx.AuditEngine == types.AuditEngineOn ==> auditWrites == old(auditWrites) + 1
 //@   ensures atMostOne: auditWrites == old(auditWrites) || auditWrites == old(auditWrites) + 1
+// RelevantOnly row of the decision table (relevantStatus is defined in the C19 audit section at the end of this file).
+// With a pattern: exactly one record iff it matches the status, whatever the rules' audit flags say; without a
+// pattern and without an audit-enabled match: none. (tx.audit without a pattern is outside the property.)
+//@   ensures relevantOnly: tx.AuditEngine == types.AuditEngineRelevantOnly && tx.WAF.AuditLogRelevantStatus != nil ==>
+//@       auditWrites == old(auditWrites) + ite(rxMatch(tx.WAF.AuditLogRelevantStatus, relevantStatus(tx)), 1, 0)
+//@   ensures relevantNoPattern: tx.AuditEngine == types.AuditEngineRelevantOnly && tx.WAF.AuditLogRelevantStatus == nil && !tx.audit ==>
+//@       auditWrites == old(auditWrites)
+// ([]byte(status) has exactly the bytes of status: stated where the pattern is applied so that the string
+// extensionality instance is available)
+//@   at call "re.Match(" requires bytesAreStatus: str(arg(1)) == status
 
 // ---------------------------------------------------------------- isolation of recycled transactions (C05)
 
@@ -261,8 +281,7 @@ package corazawaf
 // TxReqInv: the request buffer is well formed, holds no more than the transaction's limit, and the buffer's own
 // limit is not below the transaction's (so a write the transaction admits is never refused by the buffer).
 //@ define TxReqInv(tx *Transaction) bool := tx.WAF != nil && tx.requestBodyBuffer != nil && BufInv(tx.requestBodyBuffer) &&
-//@     0 < tx.RequestBodyLimit && tx.requestBodyBuffer.length <= tx.RequestBodyLimit && tx.RequestBodyLimit <= tx.requestBodyBuffer.options.Limit &&
-//@     tx.RequestBodyLimit <= 1099511627776 &&
+//@     tx.RequestBodyLimit <= tx.requestBodyBuffer.options.Limit && tx.RequestBodyLimit <= 1099511627776 &&
 //@     (tx.WAF.RequestBodyLimitAction == types.BodyLimitActionReject || tx.WAF.RequestBodyLimitAction == types.BodyLimitActionProcessPartial)
 
 //@ define reqContent(tx *Transaction) string := bufContent(tx.requestBodyBuffer)
@@ -277,7 +296,8 @@ package corazawaf
 //@   modifies tx.interruption
 //@   ensures result0 != nil && fresh(result0) && result0 == tx.interruption && result0.Status == status && result0.Action == "deny" && result1 == 0 && isnil(result2)
 
-//@ func (*Transaction).WriteRequestBody props C10,C02,C20,C07
+//@ func (*Transaction).WriteRequestBody props C10,C02,C20,C07,C06
+//@   excludes Rule, RuleGroup, WAF, globals
 //@   requires TxReqInv(tx) && PhaseInv(tx)
 //@   modifies inferred, tx.evalCount
 //@   ensures PhaseInv(tx)
@@ -344,6 +364,9 @@ package corazawaf
 // target exclusions from ctl:ruleRemoveTarget* are merged into a private copy of the target.)
 //@ func (*Rule).doEvaluate props C06,C17,C01 nosafety
 //@   modifies inferred
+// the shared, immutable-after-construction part of the WAF is outside the write footprint of rule evaluation (C06):
+// no field of the rule, the rule group or the WAF, and no package-level variable, is written on any path
+//@   excludes Rule, RuleGroup, WAF, globals
 // the per-transaction exclusions are merged into a private copy of the target (never into the rule's own target),
 // and the append cannot write into the exclusion array the copy still shares with the rule
 //@   at "v.Exceptions = append(" requires privateCopy: fresh(v)
@@ -360,8 +383,290 @@ package corazawaf
 //@ func transformationCacheable props C12,C04
 //@   ensures result == !volatileVar(v)
 //@ spec mdVariable(m types.MatchData) variables.RuleVariable
+//@ spec mdKey(m types.MatchData) string
+//@ spec mdValue(m types.MatchData) string
+// The cache key built for argument (key string, value string, collection, position) and chain prefix id. A cached
+// result may be handed to another argument only if it is the result for the same value: two arguments that get the
+// same cache key must have the same value (C12/C04: the position in the list returned by the collection depends on
+// the iteration order of Go maps, so it identifies nothing).
+//@ define tkeyOf(k transformationKey, akey string, aval string, avar variables.RuleVariable, idx int, tid int) bool :=
+//@     k.argKey == strdata(akey) && k.argIndex == idx && k.argValue == strdata(aval) && k.argValueLen == len(aval) &&
+//@     k.argVariable == avar && k.transformationsID == tid
 //@ func (*Rule).transformArg props C12,C04 nosafety
 //@   modifies inferred
+//@   lemma keyDeterminesValue: forall k transformationKey, ak1 string, av1 string, v1 variables.RuleVariable, i1 int, t1 int,
+//@       ak2 string, av2 string, v2 variables.RuleVariable, i2 int, t2 int ::
+//@       tkeyOf(k, ak1, av1, v1, i1, t1) && tkeyOf(k, ak2, av2, v2, i2, t2) ==> av1 == av2 && t1 == t2
+//@   at "cached, ok := cache[key]" requires readKey: tkeyOf(key, mdKey(arg), mdValue(arg), mdVariable(arg), argIdx, r.transformationPrefixIDs[i])
+// what is cached for a step is exactly the value (and error list) the computing rule itself carries on with: a step
+// that fails leaves the running value unchanged, and so must the cache entry later rules are served from
+//@   at update "cache[key] = transformationValue" requires cachesValueInUse: arg(2).arg == value && arg(2).errs == errs
+//@   at "cache[key] = transformationValue" requires storeKey: tkeyOf(key, mdKey(arg), mdValue(arg), mdVariable(arg), argIdx, r.transformationPrefixIDs[i])
 //@   at "cache[key] = transformationValue" requires neverForVolatile: !volatileVar(mdVariable(arg))
 //@   at "cached, ok := cache[key]" requires neverReadForVolatile: !volatileVar(mdVariable(arg))
 // ==== END C12 transformation cache section ====
+// ==== BEGIN C03 request-data section ====
+// Request data handed to a transaction (query arguments, headers, cookies) must be visible in its collection under
+// its own name, once, and must never vanish silently (C03): "when input ... exceeds a configured limit, an error
+// variable or an interruption says so".
+// (normKey(map, k): the key under which a collections.Map stores k -- defined in internal/collections;
+//  pqLen: the pairs a query string denotes -- internal/url; ckLen: the pairs of a Cookie header -- internal/cookies.)
+//@ define ArgColOK(c *collections.NamedCollection) bool := c != nil && c.Map != nil && c.Map.data != nil
+// reqFlagged(tx): an interruption or one of the request-side error variables says that input was lost.
+//@ define reqFlagged(tx *Transaction) bool := tx.interruption != nil ||
+//@     (tx.variables.inboundDataError != nil && tx.variables.inboundDataError.data == "1") ||
+//@     (tx.variables.reqbodyError != nil && tx.variables.reqbodyError.data == "1") ||
+//@     (tx.variables.urlencodedError != nil && tx.variables.urlencodedError.data == "1")
+
+// The argument limit compares the number of distinct (normalised) argument NAMES with SecArgumentsLimit.
+//@ func (*Transaction).checkArgumentLimit props C03,C07
+//@   requires tx.WAF != nil && c != nil && c.Map != nil
+//@   modifies nothing
+//@   ensures result == (len(c.Map.data) >= tx.WAF.ArgumentLimit)
+
+// pairAdded(c, key, value): c gained exactly one entry under the normalised name of key; pairIsLast: that entry is
+// the last one of its name and carries the original name and the byte-exact value; othersKept: no other name changed.
+//@ define pairAdded(c *collections.NamedCollection, key string, value string) bool := has(c.Map.data, normKey(c.Map, key)) &&
+//@     len(c.Map.data[normKey(c.Map, key)]) == ite(old(has(c.Map.data, normKey(c.Map, key))), old(len(c.Map.data[normKey(c.Map, key)])), 0) + 1
+//@ define pairIsLast(c *collections.NamedCollection, key string, value string) bool :=
+//@     c.Map.data[normKey(c.Map, key)][len(c.Map.data[normKey(c.Map, key)]) - 1].key == key &&
+//@     c.Map.data[normKey(c.Map, key)][len(c.Map.data[normKey(c.Map, key)]) - 1].value == value
+//@ define othersKept(c *collections.NamedCollection, key string) bool := forall k string :: k != normKey(c.Map, key) ==>
+//@     has(c.Map.data, k) == old(has(c.Map.data, k)) && c.Map.data[k] == old(c.Map.data[k])
+
+// Below the limit the pair is appended to ARGS_GET / ARGS_POST / ARGS_PATH under its normalised name (the entry keeps
+// the original name and the value byte-exact) and no other name is touched; `neverSilent` is the property: the pair is
+// in the collection afterwards or the transaction says that it was lost.
+//@ func (*Transaction).AddGetRequestArgument props C03,C07
+//@   requires tx.WAF != nil && !isnil(tx.debugLogger) && ArgColOK(tx.variables.argsGet)
+//@   modifies mapof(tx.variables.argsGet.Map.data), collections.keyValue.key, collections.keyValue.value
+//@   ensures belowLimit: old(len(tx.variables.argsGet.Map.data)) < tx.WAF.ArgumentLimit ==>
+//@       pairAdded(tx.variables.argsGet, key, value) && pairIsLast(tx.variables.argsGet, key, value)
+//@   ensures others: othersKept(tx.variables.argsGet, key)
+//@   ensures neverSilent: reqFlagged(tx) || pairAdded(tx.variables.argsGet, key, value)
+//@ func (*Transaction).AddPostRequestArgument props C03,C07
+//@   requires tx.WAF != nil && !isnil(tx.debugLogger) && ArgColOK(tx.variables.argsPost)
+//@   modifies mapof(tx.variables.argsPost.Map.data), collections.keyValue.key, collections.keyValue.value
+//@   ensures belowLimit: old(len(tx.variables.argsPost.Map.data)) < tx.WAF.ArgumentLimit ==>
+//@       pairAdded(tx.variables.argsPost, key, value) && pairIsLast(tx.variables.argsPost, key, value)
+//@   ensures others: othersKept(tx.variables.argsPost, key)
+//@   ensures neverSilent: reqFlagged(tx) || pairAdded(tx.variables.argsPost, key, value)
+//@ func (*Transaction).AddPathRequestArgument props C03,C07
+//@   requires tx.WAF != nil && !isnil(tx.debugLogger) && ArgColOK(tx.variables.argsPath)
+//@   modifies mapof(tx.variables.argsPath.Map.data), collections.keyValue.key, collections.keyValue.value
+//@   ensures belowLimit: old(len(tx.variables.argsPath.Map.data)) < tx.WAF.ArgumentLimit ==>
+//@       pairAdded(tx.variables.argsPath, key, value) && pairIsLast(tx.variables.argsPath, key, value)
+//@   ensures others: othersKept(tx.variables.argsPath, key)
+//@   ensures neverSilent: reqFlagged(tx) || pairAdded(tx.variables.argsPath, key, value)
+
+// ExtractGetArguments: the query string is decoded once (ParseQuery: for every name k the parsed map holds exactly
+// pqLen(uri, '&', true, k) values) and every (name, value) of the parsed map is offered to AddGetRequestArgument once:
+// the outer loop yields every name once, the inner one runs over all of its values; the call passes exactly that pair
+// (`fromQuery`). `allNamesVisibleOrFlagged` / `visible` is the property: afterwards every name of the query string is
+// a name of ARGS_GET, or the transaction says that input was lost.
+//@ func (*Transaction).ExtractGetArguments props C03,C07
+//@   requires tx.WAF != nil && !isnil(tx.debugLogger) && ArgColOK(tx.variables.argsGet)
+//@   ensures allNamesVisibleOrFlagged: reqFlagged(tx) || (forall q string :: pqLen(uri, '&', true, q) > 0 ==>
+//@       has(tx.variables.argsGet.Map.data, normKey(tx.variables.argsGet.Map, q)))
+//@   at call "tx.AddGetRequestArgument(k, v)" requires fromQuery: pqLen(uri, '&', true, arg(1)) > 0 && has(data, arg(1)) && data[arg(1)] == vs &&
+//@       len(vs) == pqLen(uri, '&', true, arg(1)) && 0 <= rangeindex + 1 && rangeindex + 1 < len(vs) && arg(2) == vs[rangeindex + 1]
+//@   loop 1
+//@     invariant freshMap: fresh(data)
+//@     invariant parsed: forall q string :: has(data, q) <==> pqLen(uri, '&', true, q) > 0
+//@     invariant parsedCounts: forall q string :: has(data, q) ==> len(data[q]) == pqLen(uri, '&', true, q)
+//@     invariant visible: reqFlagged(tx) || (forall q string :: visited(q) ==> has(tx.variables.argsGet.Map.data, normKey(tx.variables.argsGet.Map, q)))
+//@   loop 2
+//@     invariant visible: reqFlagged(tx) || ((forall q string :: visited(q) && q != k ==> has(tx.variables.argsGet.Map.data, normKey(tx.variables.argsGet.Map, q))) &&
+//@         (rangeindex >= 0 ==> has(tx.variables.argsGet.Map.data, normKey(tx.variables.argsGet.Map, k))))
+//@     invariant fresh(data) && -1 <= rangeindex && rangeindex < len(vs) && has(data, k) && data[k] == vs && len(vs) == pqLen(uri, '&', true, k)
+//@     invariant parsed: forall q string :: has(data, q) <==> pqLen(uri, '&', true, q) > 0
+//@     invariant parsedCounts: forall q string :: has(data, q) ==> len(data[q]) == pqLen(uri, '&', true, q)
+
+// AddRequestHeader (C03, C04): an empty name is ignored (nothing changes); otherwise REQUEST_HEADERS gains exactly one
+// entry under the case-folded name and no other name changes (`headerAdded`), that entry is the last of its name and
+// carries the original name and the byte-exact value (`headerEntry`; for a cookie header this is checked at the point
+// where the cookie is parsed, `headerEntryCookie`, because the contract of Map.Add does not frame the entries of other
+// maps); a content-type of exactly application/x-www-form-urlencoded / starting with multipart/form-data
+// (case-insensitively) selects the URLENCODED / MULTIPART body processor, any other content-type and any other header
+// leave REQBODY_PROCESSOR alone (`ctype*`); a cookie header offers every pair returned by ParseCookies to
+// REQUEST_COOKIES.Add once: the outer loop yields every name of the parsed map once, the inner one runs over all of its
+// ckLen(tpTrim(value), name) values, and the call passes exactly that name and value (`cookiePair`).
+//@ func (*Transaction).AddRequestHeader props C03,C04,C07
+//@   requires ArgColOK(tx.variables.requestHeaders) && ArgColOK(tx.variables.requestCookies) && tx.variables.reqbodyProcessor != nil
+//@   requires distinct: ref(tx.variables.requestHeaders.Map.data) != ref(tx.variables.requestCookies.Map.data)
+//@   ensures emptyName: key == "" ==> (forall k string :: has(tx.variables.requestHeaders.Map.data, k) == old(has(tx.variables.requestHeaders.Map.data, k)) &&
+//@       tx.variables.requestHeaders.Map.data[k] == old(tx.variables.requestHeaders.Map.data[k]))
+//@   ensures headerAdded: key != "" ==> pairAdded(tx.variables.requestHeaders, key, value) && othersKept(tx.variables.requestHeaders, key)
+//@   ensures headerEntry: key != "" && lower(key) != "cookie" ==> pairIsLast(tx.variables.requestHeaders, key, value)
+//@   at call "cookies.ParseCookies(value)" requires headerEntryCookie: pairAdded(tx.variables.requestHeaders, key, value) && pairIsLast(tx.variables.requestHeaders, key, value)
+//@   at call "tx.variables.requestCookies.Add(k, v)" requires cookiePair: arg(1) != "" && ckLen(tpTrim(value), arg(1)) > 0 && has(values, arg(1)) &&
+//@       values[arg(1)] == vr && len(vr) == ckLen(tpTrim(value), arg(1)) && 0 <= rangeindex + 1 && rangeindex + 1 < len(vr) && arg(2) == vr[rangeindex + 1]
+//@   at call "tx.variables.requestHeaders.Add(key, value)" requires headerAdd: arg(1) == key && arg(2) == value && key != ""
+//@   ensures ctypeUrlencoded: key != "" && lower(key) == "content-type" && lower(value) == "application/x-www-form-urlencoded" ==> tx.variables.reqbodyProcessor.data == "URLENCODED"
+//@   ensures ctypeMultipart: key != "" && lower(key) == "content-type" && lower(value) != "application/x-www-form-urlencoded" && strHasPrefix(lower(value), "multipart/form-data") ==>
+//@       tx.variables.reqbodyProcessor.data == "MULTIPART"
+//@   ensures ctypeOther: key == "" || lower(key) != "content-type" || (lower(value) != "application/x-www-form-urlencoded" && !strHasPrefix(lower(value), "multipart/form-data")) ==>
+//@       tx.variables.reqbodyProcessor.data == old(tx.variables.reqbodyProcessor.data)
+//@   loop 1
+//@     invariant pairAdded(tx.variables.requestHeaders, key, value) && othersKept(tx.variables.requestHeaders, key) && tx.variables.reqbodyProcessor.data == old(tx.variables.reqbodyProcessor.data)
+//@     invariant parsed: fresh(values) && !has(values, "") && (forall q string :: q != "" ==> (has(values, q) <==> ckLen(tpTrim(value), q) > 0) &&
+//@         (has(values, q) ==> len(values[q]) == ckLen(tpTrim(value), q)))
+//@   loop 2
+//@     invariant pairAdded(tx.variables.requestHeaders, key, value) && othersKept(tx.variables.requestHeaders, key) && tx.variables.reqbodyProcessor.data == old(tx.variables.reqbodyProcessor.data)
+//@     invariant parsed: fresh(values) && !has(values, "") && (forall q string :: q != "" ==> (has(values, q) <==> ckLen(tpTrim(value), q) > 0) &&
+//@         (has(values, q) ==> len(values[q]) == ckLen(tpTrim(value), q)))
+//@     invariant -1 <= rangeindex && rangeindex < len(vr) && has(values, k) && values[k] == vr && k != ""
+
+// The only implementation of plugintypes.TransactionVariables meets what /verif/specs/reqdata.spec assumes about the
+// getters used by the urlencoded body processor: each returns its own field, as a *collections.Single where the
+// processor type-asserts one.
+//@ func (*TransactionVariables).ArgsPost props C03
+//@   modifies nothing
+//@   ensures typeof(result) == tag("*collections.NamedCollection") && payload(result, "*collections.NamedCollection") == v.argsPost
+//@ func (*TransactionVariables).RequestBody props C03
+//@   modifies nothing
+//@   ensures typeof(result) == tag("*collections.Single") && payload(result, "*collections.Single") == v.requestBody
+//@ func (*TransactionVariables).RequestBodyLength props C03
+//@   modifies nothing
+//@   ensures typeof(result) == tag("*collections.Single") && payload(result, "*collections.Single") == v.requestBodyLength
+// ==== END C03 request-data section ====
+
+// ==== BEGIN C19 audit section ====
+// ---------------------------------------------------------------- audit and error logging (C19)
+
+// relevantStatus: the status the RelevantOnly decision looks at -- the real interruption's, else the would-be
+// (DetectionOnly) interruption's, else the response status variable.
+//@ define relevantStatus(tx *Transaction) string := ite(tx.interruption != nil, itoa(tx.interruption.Status),
+//@     ite(tx.detectionOnlyInterruption != nil, itoa(tx.detectionOnlyInterruption.Status), tx.variables.responseStatus.data))
+
+// errorLogCalls counts the invocations of the error callback; lastErrorLogged is the matched rule handed to the
+// most recent one (definitional ghost effects of calling WAF.ErrorLogCb).
+//@ ghost var errorLogCalls int
+//@ ghost var lastErrorLogged types.MatchedRule
+//@ func funcfield:WAF.ErrorLogCb trusted
+//@   modifies errorLogCalls, lastErrorLogged
+//@   ensures errorLogCalls == old(errorLogCalls) + 1 && lastErrorLogged == rule
+
+// hsVal: the numeric value of HIGHEST_SEVERITY as MatchRule reads it (strconv.Atoi, 0 when not a number)
+//@ define hsVal(s string) int := ite(isnum(s), atoi(s), 0)
+//@ define lastMatched(tx *Transaction) *corazarules.MatchedRule := payload(tx.matchedRules[len(tx.matchedRules) - 1], "*corazarules.MatchedRule")
+
+// MatchRule records one fired rule: the list of matched rules grows by exactly one entry that carries the rule's
+// log / audit flags, the transaction id and the matched data; the transaction is marked for auditing iff it was
+// already or the rule is audit-enabled; the error callback fires exactly once iff the rule has logging enabled and a
+// callback is configured, and it receives the new entry; HIGHEST_SEVERITY becomes the most severe (numerically
+// smallest) of its old value and the rule's severity (rules without a severity leave it alone).
+//@ func (*Transaction).MatchRule props C19,C07
+//@   requires tx.WAF != nil && r != nil && !isnil(tx.debugLogger)
+//@   requires tx.variables.highestSeverity != nil && tx.variables.requestURI != nil && tx.variables.serverAddr != nil && tx.variables.remoteAddr != nil
+//@   requires compiledActions: forall j int :: 0 <= j && j < len(r.actions) ==> !isnil(r.actions[j].Function)
+//@   requires realMatches: forall j int :: 0 <= j && j < len(mds) ==> !isnil(mds[j])
+//@   modifies inferred, errorLogCalls, lastErrorLogged
+//@   ensures errorCallback: errorLogCalls == old(errorLogCalls) + ite(!isnil(tx.WAF.ErrorLogCb) && r.Log, 1, 0)
+//@   ensures callbackGetsEntry: !isnil(tx.WAF.ErrorLogCb) && r.Log ==> lastErrorLogged == tx.matchedRules[len(tx.matchedRules) - 1]
+//@   ensures auditFlag: tx.audit == (old(tx.audit) || r.Audit)
+//@   ensures grows: len(tx.matchedRules) == len(old(tx.matchedRules)) + 1
+//@   ensures earlierKept: forall j int :: 0 <= j && j < len(old(tx.matchedRules)) ==> tx.matchedRules[j] == old(tx.matchedRules[j])
+//@   ensures entry: typeof(tx.matchedRules[len(tx.matchedRules) - 1]) == tag("*corazarules.MatchedRule") && fresh(lastMatched(tx)) &&
+//@       lastMatched(tx).Log_ == r.Log && lastMatched(tx).Audit_ == r.Audit && lastMatched(tx).TransactionID_ == tx.id && lastMatched(tx).MatchedDatas_ == mds
+//@   ensures severityUnset: r.Severity_ == types.RuleSeverityUnset ==> tx.variables.highestSeverity.data == old(tx.variables.highestSeverity.data)
+//@   ensures severity: r.Severity_ != types.RuleSeverityUnset ==>
+//@       hsVal(tx.variables.highestSeverity.data) == ite(r.Severity_ < hsVal(old(tx.variables.highestSeverity.data)), r.Severity_, hsVal(old(tx.variables.highestSeverity.data)))
+//@   loop 1
+//@     invariant tx.audit == (old(tx.audit) || r.Audit) && tx.matchedRules == old(tx.matchedRules) && errorLogCalls == old(errorLogCalls)
+//@     invariant r.actions == old(r.actions) && (forall j int :: 0 <= j && j < len(r.actions) ==> !isnil(r.actions[j].Function))
+//@   loop 2
+//@     invariant tx.audit == (old(tx.audit) || r.Audit) && tx.matchedRules == old(tx.matchedRules) && errorLogCalls == old(errorLogCalls)
+
+// unselected(tx, c): part c is not among the transaction's audit log parts; notSeen(tx, c, n): not among parts 0..n
+//@ define unselected(tx *Transaction, c int) bool := forall k int :: 0 <= k && k < len(old(tx.AuditLogParts)) ==> old(tx.AuditLogParts[k]) != c
+// (both over the parts as they were on entry: AuditLog does not write them, see partsKept)
+//@ define notSeen(tx *Transaction, c int, n int) bool := forall k int :: 0 <= k && k <= n ==> old(tx.AuditLogParts[k]) != c
+// auditEnabled(m): m is listed in the audit log -- a *corazarules.MatchedRule (as MatchRule creates them) with the Audit flag
+//@ define auditEnabled(m types.MatchedRule) bool := typeof(m) == tag("*corazarules.MatchedRule") && payload(m, "*corazarules.MatchedRule").Audit_
+// noneAuditEnabled(tx): no matched rule of the transaction (as it was on entry; AuditLog does not change them) is audit-enabled
+//@ define noneAuditEnabled(tx *Transaction) bool := forall j int :: 0 <= j && j < len(old(tx.matchedRules)) ==>
+//@     !old(typeof(tx.matchedRules[j]) == tag("*corazarules.MatchedRule") && payload(tx.matchedRules[j], "*corazarules.MatchedRule").Audit_)
+// alFrame: what building the record leaves alone
+//@ define alCore(tx *Transaction, al *auditlog.Log) bool := al != nil && al.Transaction_.ID_ == tx.id && al.Parts_ == tx.AuditLogParts &&
+//@     al.Transaction_.IsInterrupted_ == (tx.interruption != nil) && al.Transaction_.Request_ != nil
+
+// typedMem(tx): the parts value does not share its backing array with the request buffer's reader list. Always true in
+// Go (different element types), but govc keeps bytes and pointers in one memory and (*BodyBuffer).Reader may rewrite
+// the reader list's array; the clauses about parts are stated under this condition instead of a precondition that
+// no caller could establish.
+//@ define typedMem(tx *Transaction) bool := old(isnil(tx.AuditLogParts) || tx.requestBodyBuffer == nil || base(tx.AuditLogParts) != base(tx.requestBodyBuffer.readers))
+
+// AuditLog assembles the record of the transaction: it carries the transaction id, the configured parts and the
+// interruption flag; a section whose part is not selected stays empty; rule messages appear only with part K (or H)
+// and only when some matched rule is audit-enabled. The transaction's own logging state is not touched.
+// (No nil-ness preconditions: the callers cannot establish them after the phase-5 rules ran; the nil/ obligations
+// of this unit stay unproved.)
+//@ func (*Transaction).AuditLog props C19,C07
+//@   modifies inferred
+//@   ensures result != nil && fresh(result)
+//@   ensures carriesID: result.Transaction_.ID_ == tx.id
+//@   ensures carriesParts: result.Parts_ == tx.AuditLogParts
+//@   ensures carriesInterruption: result.Transaction_.IsInterrupted_ == (tx.interruption != nil)
+//@   ensures requestSection: result.Transaction_.Request_ != nil && fresh(result.Transaction_.Request_)
+//@   ensures noB: typedMem(tx) && unselected(tx, 'B') ==> isnil(result.Transaction_.Request_.Headers_)
+//@   ensures noC: typedMem(tx) && unselected(tx, 'C') ==> result.Transaction_.Request_.Body_ == ""
+//@   ensures noJ: typedMem(tx) && unselected(tx, 'J') ==> isnil(result.Transaction_.Request_.Files_)
+//@   ensures noEF: typedMem(tx) && unselected(tx, 'E') && unselected(tx, 'F') ==> result.Transaction_.Response_ == nil
+//@   ensures noH: typedMem(tx) && unselected(tx, 'H') ==> result.Transaction_.Producer_ == nil
+//@   ensures noKnoH: typedMem(tx) && unselected(tx, 'K') && unselected(tx, 'H') ==> len(result.Messages_) == 0
+//@   ensures onlyAuditEnabled: noneAuditEnabled(tx) ==> len(result.Messages_) == 0
+//@   ensures partsKept: typedMem(tx) ==> (forall k int :: 0 <= k && k < len(tx.AuditLogParts) ==> tx.AuditLogParts[k] == old(tx.AuditLogParts[k]))
+//@   ensures txUntouched: tx.audit == old(tx.audit) && tx.matchedRules == old(tx.matchedRules) && tx.AuditEngine == old(tx.AuditEngine) &&
+//@       tx.interruption == old(tx.interruption) && tx.detectionOnlyInterruption == old(tx.detectionOnlyInterruption) && tx.AuditLogParts == old(tx.AuditLogParts) && tx.id == old(tx.id)
+//@   ensures matchedKept: forall j int :: 0 <= j && j < len(tx.matchedRules) ==> tx.matchedRules[j] == old(tx.matchedRules[j])
+//@   loop 1
+//@     invariant -1 <= rangeindex && rangeindex < len(tx.AuditLogParts) && alCore(tx, al) && fresh(al) && fresh(al.Transaction_.Request_)
+//@     invariant tx.audit == old(tx.audit) && tx.matchedRules == old(tx.matchedRules) && tx.AuditEngine == old(tx.AuditEngine) && tx.interruption == old(tx.interruption) &&
+//@         tx.detectionOnlyInterruption == old(tx.detectionOnlyInterruption) && tx.AuditLogParts == old(tx.AuditLogParts) && tx.id == old(tx.id) && tx.WAF == old(tx.WAF) &&
+//@         tx.requestBodyBuffer == old(tx.requestBodyBuffer)
+//@     invariant (isnil(al.Messages_) || fresh(al.Messages_)) && (isnil(al.Messages_) || base(al.Messages_) != base(tx.matchedRules))
+//@     invariant forall j int :: 0 <= j && j < len(tx.matchedRules) ==> tx.matchedRules[j] == old(tx.matchedRules[j])
+//@     invariant typedMem(tx) ==> (forall k int :: 0 <= k && k < len(tx.AuditLogParts) ==> tx.AuditLogParts[k] == old(tx.AuditLogParts[k]))
+//@     invariant typedMem(tx) ==> isnil(tx.AuditLogParts) || tx.requestBodyBuffer == nil || base(tx.AuditLogParts) != base(tx.requestBodyBuffer.readers)
+//@     invariant typedMem(tx) && notSeen(tx, 'B', rangeindex) ==> isnil(al.Transaction_.Request_.Headers_)
+//@     invariant typedMem(tx) && notSeen(tx, 'C', rangeindex) ==> al.Transaction_.Request_.Body_ == ""
+//@     invariant typedMem(tx) && notSeen(tx, 'J', rangeindex) ==> isnil(al.Transaction_.Request_.Files_)
+//@     invariant typedMem(tx) && notSeen(tx, 'E', rangeindex) && notSeen(tx, 'F', rangeindex) ==> al.Transaction_.Response_ == nil
+//@     invariant typedMem(tx) && notSeen(tx, 'H', rangeindex) ==> al.Transaction_.Producer_ == nil && !auditLogPartAuditLogTrailerSet
+//@     invariant typedMem(tx) && notSeen(tx, 'K', rangeindex) ==> !auditLogPartRulesMatchedSet && len(al.Messages_) == 0
+//@     invariant noneAuditEnabled(tx) ==> len(al.Messages_) == 0
+// every audit-enabled match is listed ONCE: a part K that was already handled adds nothing
+//@     step eachMessageOnce: part == types.AuditLogPartRulesMatched && prev(auditLogPartRulesMatchedSet) ==> len(al.Messages_) == prev(len(al.Messages_))
+//@   loop 2
+//@     invariant -1 <= rangeindex && rangeindex < len(tx.matchedRules) && alCore(tx, al) && fresh(al)
+//@     invariant tx.audit == old(tx.audit) && tx.matchedRules == old(tx.matchedRules) && tx.AuditEngine == old(tx.AuditEngine) && tx.interruption == old(tx.interruption) &&
+//@         tx.detectionOnlyInterruption == old(tx.detectionOnlyInterruption) && tx.AuditLogParts == old(tx.AuditLogParts) && tx.id == old(tx.id) && tx.WAF == old(tx.WAF)
+//@     invariant (isnil(al.Messages_) || fresh(al.Messages_)) && (isnil(al.Messages_) || base(al.Messages_) != base(tx.matchedRules))
+//@     invariant forall j int :: 0 <= j && j < len(tx.matchedRules) ==> tx.matchedRules[j] == old(tx.matchedRules[j])
+//@     invariant noneAuditEnabled(tx) ==> len(al.Messages_) == 0
+//@   loop 3
+//@     invariant -1 <= rangeindex && alCore(tx, al) && fresh(al)
+//@     invariant tx.audit == old(tx.audit) && tx.matchedRules == old(tx.matchedRules) && tx.AuditEngine == old(tx.AuditEngine) && tx.interruption == old(tx.interruption) &&
+//@         tx.detectionOnlyInterruption == old(tx.detectionOnlyInterruption) && tx.AuditLogParts == old(tx.AuditLogParts) && tx.id == old(tx.id) && tx.WAF == old(tx.WAF)
+//@     invariant (isnil(al.Messages_) || fresh(al.Messages_)) && (isnil(al.Messages_) || base(al.Messages_) != base(tx.matchedRules))
+//@     invariant forall j int :: 0 <= j && j < len(tx.matchedRules) ==> tx.matchedRules[j] == old(tx.matchedRules[j])
+//@     invariant !noneAuditEnabled(tx)
+//@   loop 4
+//@     invariant -1 <= rangeindex && rangeindex < len(tx.matchedRules) && alCore(tx, al) && fresh(al)
+//@     invariant tx.audit == old(tx.audit) && tx.matchedRules == old(tx.matchedRules) && tx.AuditEngine == old(tx.AuditEngine) && tx.interruption == old(tx.interruption) &&
+//@         tx.detectionOnlyInterruption == old(tx.detectionOnlyInterruption) && tx.AuditLogParts == old(tx.AuditLogParts) && tx.id == old(tx.id)
+//@     invariant (isnil(al.Messages_) || fresh(al.Messages_)) && (isnil(al.Messages_) || base(al.Messages_) != base(tx.matchedRules))
+//@     invariant forall j int :: 0 <= j && j < len(tx.matchedRules) ==> tx.matchedRules[j] == old(tx.matchedRules[j])
+//@     invariant noneAuditEnabled(tx) ==> len(al.Messages_) == 0
+
+// Collecting the uploaded-file metadata (part J) leaves every list of matched rules that existed before as it was
+// (govc's memory model keeps all interface-valued slice elements in one map, and the function appends to a list of
+// its own; `modifies nothing` is not provable because the loop havoc of that map cannot be framed in an invariant).
+//@ func (*Transaction).auditLogCollectFiles props C19,C07
+//@   modifies inferred
+//@   ensures matchedKept: forall s []types.MatchedRule :: !fresh(s) ==> (forall k int :: 0 <= k && k < len(s) ==> s[k] == old(s[k]))
+//@   loop 1
+//@     invariant isnil(files) || fresh(files)
+//@     invariant forall s []types.MatchedRule :: !fresh(s) ==> (forall k int :: 0 <= k && k < len(s) ==> s[k] == old(s[k]))
+// ==== END C19 audit section ====
